@@ -427,9 +427,16 @@ where
     A: Subscribe<C>,
     C: Collect,
 {
-    pub(super) fn new(subscriber: A, inner: B, inner_has_subscriber_filter: bool) -> Self {
+    pub(super) fn new(subscriber: A, inner: B, inner_has_subscriber_filter: bool) -> Self
+    where
+        B: 'static,
+    {
+        // Is the value directly below this subscriber the `Registry` itself?
+        // This has to look at the type of `inner`, not at the collector type
+        // `C`: when two subscribers are combined with `and_then`, `inner` is
+        // another subscriber whose own level hint must not be ignored.
         #[cfg(all(feature = "registry", feature = "std"))]
-        let inner_is_registry = TypeId::of::<C>() == TypeId::of::<crate::registry::Registry>();
+        let inner_is_registry = TypeId::of::<B>() == TypeId::of::<crate::registry::Registry>();
         #[cfg(not(all(feature = "registry", feature = "std")))]
         let inner_is_registry = false;
 
